@@ -305,4 +305,94 @@ open CdnsVerif.Model.Builder CdnsVerif.Model.ReadBlock in
 example : rateFor (ratesOf samplePreamble) (some 0) = .ok 1000000 ∧ rateFor (ratesOf samplePreamble) none = .ok 1000000 := ⟨rfl, rfl⟩
 
 
+/-! ### several blocks: wherever the exporter cuts the record sequence into blocks -/
+
+open CdnsVerif.Model.Builder CdnsVerif.Model.Schema CdnsVerif.Model.Structs CdnsVerif.Model.ReadBlock CdnsVerif.Model.Timestamp in
+/-- the preconditions of the property, for one block's worth of records -/
+structure GroupOk (h : Hints) (g : List Rec) : Prop where
+  recs : ∀ r ∈ g, RecOk r
+  count : g.length < 2 ^ 64
+  tables : ∀ t, len (build h g) t ≤ 2 ^ 32
+  times : ∀ rec ∈ g, ∀ t, rec.ts = some t → C17.InRange t h.tps ∧ t.ticks < h.tps
+
+open CdnsVerif.Model.Builder CdnsVerif.Model.Schema CdnsVerif.Model.Structs CdnsVerif.Model.ReadBlock CdnsVerif.Model.Timestamp in
+/-- what the application observes of the block built from one group of records, given its raw value as written -/
+theorem built_block_outcome (h : Hints) (g : List Rec) (pi : Option Nat) (rates : List Nat) (hg : GroupOk h g) (hr : 1 ≤ h.tps)
+    (hrate : rateFor rates pi = .ok h.tps) :
+    ∃ rb r, blockOutcome rates (toVal (build h g) pi h.tps) = .ok (rb, r) ∧
+      r.qrs = expectedQrs h g ∧ r.mms = expectedMms h g ∧ (∀ k, returnedCount r.aecs k = timesBuffered h g k) ∧
+      rb.blk.stats = ((g.filterMap statOf).getLast?).map norm6 ∧ rb.pi = pi := by
+  have htr := record_times_recovered h g h.tps hr hg.times
+  have hback : ∀ (ts : Option Ts), (∀ t, ts = some t → ∃ n, offsetOf t (build h g).earliest h.tps = some n ∧ n < two63 ∧
+      addTimeOffset (build h g).earliest (toI64 n) h.tps = .ok t) → TimeBack (build h g).earliest h.tps ts := by
+    intro ts hts
+    unfold TimeBack
+    cases ts with
+    | none => rfl
+    | some t =>
+      obtain ⟨n, hn1, _, hn3⟩ := hts t rfl
+      simp only [Option.bind_some, hn1, timeOf, hn3]
+  have hov := ofVal_toVal rates (build h g) pi h.tps hrate
+    (fun q hq => hback q.ts fun t ht => htr.1 q hq t ht) (fun m hm => hback m.ts fun t ht => htr.2 m hm t ht) (aec_keys_nodup h g)
+  obtain ⟨r, hr1, hr2, hr3, hr4⟩ := records_closed (readBackOf (build h g)) (closed_readBackOf _ (inv_build h g).1)
+  refine ⟨{ blk := readBackOf (build h g), pi := pi, tps := h.tps }, r, ?_, ?_, ?_, ?_, ?_, rfl⟩
+  · simp only [blockOutcome, hov, hr1]
+  · rw [hr2]; exact records_resolve_to_projection h g
+  · rw [hr3]; exact malformed_messages_read_back h g
+  · intro k
+    rw [hr4]
+    exact (returnedCount_eq (build h g) k).trans (address_event_totals h g k)
+  · show (build h g).stats.map norm6 = _
+    rw [block_statistics_latest h g]
+
+open CdnsVerif.Model.Builder in
+theorem expectedQrs_flatten (h : Hints) (groups : List (List Rec)) :
+    (groups.map (expectedQrs h)).flatten = expectedQrs h groups.flatten := by
+  induction groups with
+  | nil => rfl
+  | cons g gs ih => simp only [List.map_cons, List.flatten_cons, ih, expectedQrs, List.filterMap_append]
+
+open CdnsVerif.Model.Builder in
+theorem expectedMms_flatten (h : Hints) (groups : List (List Rec)) :
+    (groups.map (expectedMms h)).flatten = expectedMms h groups.flatten := by
+  induction groups with
+  | nil => rfl
+  | cons g gs ih => simp only [List.map_cons, List.flatten_cons, ih, expectedMms, List.filterMap_append]
+
+open CdnsVerif.Model.Builder CdnsVerif.Model.Schema CdnsVerif.Model.Structs CdnsVerif.Model.File CdnsVerif.Model.ReadBlock in
+/-- **Any number of blocks, any block boundaries.**  However the record sequence is cut into blocks (by the size rule, by explicit
+    `write_block` calls, by rotation – `groups` is the list of the record groups that ended up in one block each), the file holding
+    the blocks built from the groups is read back completely, every block is accepted and resolved without exception, and the
+    query/responses (malformed messages) the application receives over all blocks in file order are exactly the hint projections
+    of all records buffered, in their original order: the cut points leave no trace in what is read. -/
+theorem export_read_records_blocks (h : Hints) (groups : List (List Rec)) (pi : Option Nat) (pv : Val) (hp : Conforms filePreamble pv)
+    (hgs : ∀ g ∈ groups, GroupOk h g) (hpi : ULt 32 pi) (hr : 1 ≤ h.tps) (hrate : rateFor (ratesOf pv) pi = .ok h.tps) :
+    ∃ fuel₀, ∀ fuel, fuel₀ ≤ fuel → ∃ outs : List (RdBlk × Records),
+      (readFile fuel).run (fileBytes pv (groups.map fun g => toVal (build h g) pi h.tps)) =
+        .ok ((pv, .list (groups.map fun g => toVal (build h g) pi h.tps)), []) ∧
+      (groups.map fun g => blockOutcome (ratesOf pv) (toVal (build h g) pi h.tps)) = outs.map .ok ∧
+      (outs.map (·.2.qrs)).flatten = expectedQrs h groups.flatten ∧
+      (outs.map (·.2.mms)).flatten = expectedMms h groups.flatten := by
+  have hout : ∃ outs : List (RdBlk × Records),
+      (groups.map fun g => blockOutcome (ratesOf pv) (toVal (build h g) pi h.tps)) = outs.map .ok ∧
+      outs.map (·.2.qrs) = groups.map (expectedQrs h) ∧ outs.map (·.2.mms) = groups.map (expectedMms h) := by
+    induction groups with
+    | nil => exact ⟨[], rfl, rfl, rfl⟩
+    | cons g gs ih =>
+      obtain ⟨outs, h1, h2, h3⟩ := ih (fun g' hg' => hgs g' (List.mem_cons_of_mem _ hg'))
+      obtain ⟨rb, r, hb, hq, hm, _⟩ := built_block_outcome h g pi (ratesOf pv) (hgs g List.mem_cons_self) hr hrate
+      exact ⟨(rb, r) :: outs, by simp only [List.map_cons, hb, h1], by simp only [List.map_cons, hq, h2], by simp only [List.map_cons, hm, h3]⟩
+  have hconf : ConformsList block (groups.map fun g => toVal (build h g) pi h.tps) := by
+    clear hout
+    induction groups with
+    | nil => trivial
+    | cons g gs ih =>
+      have hg := hgs g List.mem_cons_self
+      exact ⟨build_conforms h g pi hg.recs hg.count hg.tables hpi, ih fun g' hg' => hgs g' (List.mem_cons_of_mem _ hg')⟩
+  obtain ⟨fuel₀, hf⟩ := file_roundtrip pv _ hp hconf
+  refine ⟨fuel₀, fun fuel hfu => ?_⟩
+  obtain ⟨outs, h1, h2, h3⟩ := hout
+  exact ⟨outs, hf fuel hfu, h1, by rw [h2, expectedQrs_flatten], by rw [h3, expectedMms_flatten]⟩
+
+
 end CdnsVerif.Props.C01
